@@ -44,6 +44,27 @@ def _concat_sequence(fi, D, repo):
     return seq
 
 
+def interp_zero_fill(repo, rep, rule):
+    """np.interp in interp_spec (the regridding kernel shared by SpecArray.interp and the multi-file TRIAXYS reader) gives zero energy outside the source range."""
+    isf = repo.func("wavespectra.core.utils.interp_spec")
+    nint = 0
+    for c_ in ast.walk(isf.node):
+        if isinstance(c_, ast.Call) and call_name(c_) in ("np.interp", "numpy.interp"):
+            nint += 1
+            vals = {k: (repo.const(isf.module, kwarg(c_, k)) if kwarg(c_, k) is not None else "absent") for k in ("left", "right")}
+            if len(c_.args) >= 4:
+                vals["left"] = repo.const(isf.module, c_.args[3])
+            if len(c_.args) >= 5:
+                vals["right"] = repo.const(isf.module, c_.args[4])
+            if vals["left"] == 0 and vals["right"] == 0:
+                rep.ok(rule, f"{isf.file}:{c_.lineno} interp_spec", unparse(c_)[:90], "zero energy below and above the source frequencies")
+            else:
+                rep.fail(rule, isf.file, c_.lineno, isf.qualname, unparse(c_)[:110],
+                         f"np.interp(left={vals['left']}, right={vals['right']}): outside the source range np.interp repeats the end values by "
+                         "default, so target frequencies above the highest source frequency get the last bin's energy instead of zero")
+    return nint
+
+
 def run(repo, rep, tier):
     rep.rule("R-C08-8", "(shared with C05) the regridding kernels flatten in index order only: spectrum values stay paired with their (freq, dir) nodes "
                         "whatever the memory layout of the input")
@@ -371,23 +392,7 @@ def run(repo, rep, tier):
                 rep.ok("R-C08-4", f"{f2.file}:{c_.lineno} {f2.short}", unparse(c_)[:80], "first occurrence of each direction kept")
     if not dedup:
         raise AnalysisError("regrid_spec / unique_indices: de-duplication step not recognised")
-    # ---- the numpy regridding kernel: zero energy outside the source frequencies ---------------------------------
-    isf = repo.func("wavespectra.core.utils.interp_spec")
-    nint = 0
-    for c_ in ast.walk(isf.node):
-        if isinstance(c_, ast.Call) and call_name(c_) in ("np.interp", "numpy.interp"):
-            nint += 1
-            vals = {k: (repo.const(isf.module, kwarg(c_, k)) if kwarg(c_, k) is not None else "absent") for k in ("left", "right")}
-            if len(c_.args) >= 4:
-                vals["left"] = repo.const(isf.module, c_.args[3])
-            if len(c_.args) >= 5:
-                vals["right"] = repo.const(isf.module, c_.args[4])
-            if vals["left"] == 0 and vals["right"] == 0:
-                rep.ok("R-C08-2", f"{isf.file}:{c_.lineno} interp_spec", unparse(c_)[:90], "zero energy below and above the source frequencies")
-            else:
-                rep.fail("R-C08-2", isf.file, c_.lineno, isf.qualname, unparse(c_)[:110],
-                         f"np.interp(left={vals['left']}, right={vals['right']}): outside the source range np.interp repeats the end values by "
-                         "default, so target frequencies above the highest source frequency get the last bin's energy instead of zero")
+    nint = interp_zero_fill(repo, rep, "R-C08-2")
     rep.floor("R-C08-2", "np.interp calls in interp_spec", nint, 2)
     # ---- rotate ---------------------------------------------------------------------------------------
     rt = repo.func("wavespectra.specarray.SpecArray.rotate")
